@@ -262,6 +262,7 @@ def run(p, led, tier):
     # ---------------- R6 totality
     met = entries[0]
     summaries = {}
+    never_raise = [e for e in entries if e.name in ("metabolize", "digest_glucose")]
 
     def may_raise_in(fi):
         if fi.key in summaries:
@@ -275,13 +276,14 @@ def run(p, led, tier):
         r = c.raise_exit in seen
         summaries[fi.key] = (c.fmt_path(c.witness(seen, c.raise_exit)) if r else False)
         return summaries[fi.key]
-    w = may_raise_in(met)
-    key = "Mitochondria.metabolize ▸ never raises"
-    if w:
-        led.fail("C01-R6", key, where(met, met.node), "an exception can escape metabolize: a may-raise statement on hostile input lies outside the blanket handler",
-                 path=w, witness="metabolize('\\ud800') raises UnicodeEncodeError from the trace print (lone surrogate)")
-    else:
-        led.ok("C01-R6", key, where(met, met.node), "with the may-raise table applied, RAISE-TO-CALLER is unreachable: every such statement is inside `except Exception`, whose body is total")
+    for ent in never_raise:
+        w = may_raise_in(ent)
+        key = f"Mitochondria.{ent.name} ▸ never raises"
+        if w:
+            led.fail("C01-R6", key, where(ent, ent.node), f"an exception can escape {ent.name}: a may-raise statement on hostile input lies outside the blanket handler",
+                     path=w, witness="metabolize('\\ud800') raises UnicodeEncodeError from the trace print (lone surrogate)" if ent is met else "digest_glucose('10**5000') raises ValueError: the result is turned into text outside any handler (integer string conversion limit)")
+        else:
+            led.ok("C01-R6", key, where(ent, ent.node), "with the may-raise table applied, RAISE-TO-CALLER is unreachable: every such statement is inside `except Exception`, whose body is total")
 
     # ---------------- R7 length guard & who-may-call
     cfgm = cfg_of(met, led)
@@ -424,6 +426,12 @@ def _may_raise(n, fi, callee_summary, res):
             # division by something that may be zero
             if not _nonzero(x.right):
                 return True
+        # turning an *evaluated value* into text can raise: int → str beyond the interpreter's digit limit
+        # (10**5000), or a tool's object whose __str__ raises
+        if isinstance(x, ast.Call) and isinstance(x.func, ast.Name) and x.func.id in ("str", "repr", "format") and x.args and _is_computed_value(x.args[0], fi):
+            return True
+        if isinstance(x, ast.FormattedValue) and _is_computed_value(x.value, fi):
+            return True
         if isinstance(x, ast.Call):
             d = dotted(x.func) or ""
             last = x.func.attr if isinstance(x.func, ast.Attribute) else d.split(".")[-1]
@@ -453,6 +461,15 @@ def _may_raise(n, fi, callee_summary, res):
             if is_self_attr(x.func) or (isinstance(x.func, ast.Attribute) and last in ("execute", "func")):
                 return True   # stored callables / tools: arbitrary
             # unknown external call: conservatively may raise
+            return True
+    return False
+
+
+def _is_computed_value(e, fi):
+    """expression denotes a value produced by evaluating the caller's expression: `<x>.value` of a result / ATP
+    object, or a local bound to the result of a pathway / walker / tool call"""
+    for y in ast.walk(e):
+        if isinstance(y, ast.Attribute) and y.attr == "value" and not (isinstance(y.value, ast.Name) and y.value.id in ("pathway", "self")) and "pathway" not in src(y.value) and "waste_type" not in src(y.value):
             return True
     return False
 
